@@ -57,14 +57,20 @@ class ShardWriterNP(ShardWriterBase):
 
             values (dict[str, npt.NDArray[np.generic]]): Attribute values.
         """
+        # Validate before buffering anything. Otherwise a rejected example
+        # would leave some attributes appended and make the shard unreadable.
+        expected_names = {
+            attribute.name
+            for attribute in self.dataset_structure.saved_data_description
+        }
+        if set(values) != expected_names:
+            raise ValueError(f"Expected attributes {expected_names} got "
+                             f"{set(values)}")
+        copies = {name: np.copy(value) for name, value in values.items()}
+
         # Just buffer all values.
-        if not self._buffer:
-            self._buffer = {
-                name: [np.copy(value)] for name, value in values.items()
-            }
-        else:
-            for name, value in values.items():
-                self._buffer[name].append(np.copy(value))
+        for name, value in copies.items():
+            self._buffer.setdefault(name, []).append(value)
 
     def close(self) -> None:
         """Close the shard file(-s).
